@@ -30,7 +30,7 @@ type C07Params struct {
 
 var defNamePool = []string{"alpha", "beta", "gam-ma", "d_4", "e5", "al", "alphabet", "x"}
 var defNumPool = []string{"2", "3", "1,3"}
-var defValuePool = []string{`[a-c]+`, `\d{2}`, `x{1,3}`, `(?:p|q)`, `\s*`, `z`, `[^\s]`, `\.`, `k\-m`, `"`, `[0-9]{2,}w`, `(?:ab|cd)+`, `\x5c`, `[$a-z_]+`, `x\$y`, `end$`, `\$1`, `[$\w]*`}
+var defValuePool = []string{`[a-c]+`, `\d{2}`, `x{1,3}`, `(?:p|q)`, `\s*`, `z`, `[^\s]`, `\.`, `k\-m`, `"`, `[0-9]{2,}w`, `(?:ab|cd)+`, `\x5c`, `"[^"]*"`, `[$a-z_]+`, `x\$y`, `end$`, `\$1`, `[$\w]*`}
 
 func genC07(t *rapid.T, tier string) (*World, any) {
 	w := NewWorld()
